@@ -212,8 +212,105 @@ fn expected(f: &str, members: &[Option<V>], a1: Option<&V>, a2: Option<&V>) -> E
             }
             Exp::Values(out)
         }
+        "parse_char" => {
+            // ints 0..=9 -> the digit; one-character strings -> that character; longer strings and
+            // other ints are errors; everything else is skipped (empty and non-ASCII strings: the
+            // documentation speaks of "length", not asserted)
+            let mut out = vec![];
+            for m in members {
+                match m {
+                    Some(V::Int(i)) if (0..=9).contains(i) => out.push(V::Str(i.to_string())),
+                    Some(V::Int(_)) => return Exp::Error,
+                    Some(V::Str(s)) if !s.is_ascii() || s.is_empty() => return Exp::Unspecified,
+                    Some(V::Str(s)) if s.len() == 1 => out.push(V::Str(s.clone())),
+                    Some(V::Str(_)) => return Exp::Error,
+                    _ => {}
+                }
+            }
+            Exp::Values(out)
+        }
+        "parse_epoch" => {
+            let mut out = vec![];
+            for m in members {
+                match m {
+                    Some(V::Str(s)) => match rfc3339_epoch(s) {
+                        Some(t) => out.push(V::Int(t)),
+                        None => return Exp::Error,
+                    },
+                    _ => {}
+                }
+            }
+            Exp::Values(out)
+        }
         _ => Exp::Unspecified,
     }
+}
+
+/// strict RFC 3339 `YYYY-MM-DDTHH:MM:SS[.fff](Z|+HH:MM|-HH:MM)` -> seconds since the epoch
+/// (Howard Hinnant's days-from-civil); None for anything else
+fn rfc3339_epoch(s: &str) -> Option<i64> {
+    let b = s.as_bytes();
+    if b.len() < 20 || !s.is_ascii() {
+        return None;
+    }
+    let num = |a: usize, n: usize| -> Option<i64> {
+        let t = s.get(a..a + n)?;
+        if t.bytes().all(|c| c.is_ascii_digit()) {
+            t.parse::<i64>().ok()
+        } else {
+            None
+        }
+    };
+    let (y, mo, d, h, mi, se) = (num(0, 4)?, num(5, 2)?, num(8, 2)?, num(11, 2)?, num(14, 2)?, num(17, 2)?);
+    if b[4] != b'-' || b[7] != b'-' || b[10] != b'T' || b[13] != b':' || b[16] != b':' {
+        return None;
+    }
+    let leap = (y % 4 == 0 && y % 100 != 0) || y % 400 == 0;
+    let dim = [31, if leap { 29 } else { 28 }, 31, 30, 31, 30, 31, 31, 30, 31, 30, 31];
+    if !(1..=12).contains(&mo) || d < 1 || d > dim[(mo - 1) as usize] || h > 23 || mi > 59 || se > 59 {
+        return None;
+    }
+    let mut i = 19;
+    if b[i] == b'.' {
+        i += 1;
+        let st = i;
+        while i < b.len() && b[i].is_ascii_digit() {
+            i += 1;
+        }
+        if i == st {
+            return None;
+        }
+    }
+    let off = match b.get(i)? {
+        b'Z' if i + 1 == b.len() => 0,
+        c @ (b'+' | b'-') if i + 6 == b.len() && b[i + 3] == b':' => {
+            let (oh, om) = (num(i + 1, 2)?, num(i + 4, 2)?);
+            if oh > 23 || om > 59 {
+                return None;
+            }
+            (oh * 3600 + om * 60) * if *c == b'+' { 1 } else { -1 }
+        }
+        _ => return None,
+    };
+    let yy = if mo <= 2 { y - 1 } else { y };
+    let era = if yy >= 0 { yy } else { yy - 399 } / 400;
+    let yoe = yy - era * 400;
+    let doy = (153 * (if mo > 2 { mo - 3 } else { mo + 9 }) + 2) / 5 + d - 1;
+    let doe = yoe * 365 + yoe / 4 - yoe / 100 + doy;
+    let days = era * 146097 + doe - 719468;
+    Some(days * 86400 + h * 3600 + mi * 60 + se - off)
+}
+
+fn gen_timestamp(u: &mut Choices) -> String {
+    let y = *u.pick(&[2020i64, 1970, 1969, 2000, 1900, 2024, 2038, 2100, 1999, 1600]);
+    let mo = u.range(1, 12) as i64;
+    let leap = (y % 4 == 0 && y % 100 != 0) || y % 400 == 0;
+    let dim = [31, if leap { 29 } else { 28 }, 31, 30, 31, 30, 31, 31, 30, 31, 30, 31][(mo - 1) as usize];
+    let d = if u.chance(1, 3) { dim } else { u.range(1, dim as usize) as i64 };
+    let (h, mi, se) = (u.below(24), u.below(60), u.below(60));
+    let frac = *u.pick(&["", "", ".5", ".123456", ".999999999"]);
+    let off = *u.pick(&["Z", "Z", "+00:00", "+02:00", "-08:00", "+05:30", "-00:00", "+14:00", "-12:45"]);
+    format!("{:04}-{:02}-{:02}T{:02}:{:02}:{:02}{}{}", y, mo, d, h, mi, se, frac, off)
 }
 
 const STRS: [&str; 26] = [
@@ -230,11 +327,20 @@ fn gen_members(u: &mut Choices, bias: &str) -> Vec<Option<V>> {
                     "int" => vec!["42", "-7", "007", "0", "9999999999", "12x", "1.5", "", "+5", " 5", "abc"],
                     "float" => vec!["1.5", "42", "-7", "0.25", "12x", "abc", "1e5", ".5", "5.", "inf"],
                     "bool" => vec!["true", "FALSE", "True", "no", "abc", "false", ""],
+                    "char" => vec!["1", "a", "Z", "ab", "10", "x", " ", "-", "abc", "9"],
+                    "epoch" => {
+                        if u.chance(2, 3) {
+                            out.push(Some(V::Str(gen_timestamp(u))));
+                            continue;
+                        }
+                        vec!["2020-01-01", "2020-01-01T00:00:00", "2020-13-01T00:00:00Z", "2021-02-29T00:00:00Z", "2020-01-01T24:00:00Z", "abc", "", "1577836800", "2020-01-01T00:00:00+0200", "01/02/2020", "2020-01-01T00:00Z", "2020-01-32T00:00:00Z", "2020-01-01T00:60:00Z"]
+                    }
                     "url" => vec!["a%20b", "%41%42", "%e4", "a+b", "%E2%82%AC", "abc", "", "100%"],
                     _ => STRS.to_vec(),
                 };
                 Some(V::Str(pool[u.below(pool.len())].to_string()))
             }
+            1 if bias == "char" => Some(V::Int(*u.pick(&[0i64, 1, 9, 5, 10, -1, 42, 7]))),
             1 => Some(V::Int(*u.pick(&[0i64, 1, -3, 42, 7]))),
             2 => Some(V::Float(*u.pick(&[1.5f64, 0.5, 2.0, 10.25, -4.0]))),
             3 => Some(V::Bool(u.chance(1, 2))),
@@ -272,13 +378,15 @@ struct Case {
 const DUMP: &str = "rule dump {\n  %r !exists\n}\n";
 
 fn build(u: &mut Choices) -> Case {
-    let fns = ["count", "to_upper", "to_lower", "url_decode", "substring", "join", "parse_int", "parse_float", "parse_string", "parse_boolean", "json_parse", "compose_int", "regex_replace"];
+    let fns = ["count", "to_upper", "to_lower", "url_decode", "substring", "join", "parse_int", "parse_float", "parse_string", "parse_boolean", "json_parse", "compose_int", "regex_replace", "parse_char", "compose_char", "parse_epoch"];
     let f = fns[u.below(fns.len())];
     let bias = match f {
         "parse_int" | "compose_int" => "int",
         "parse_float" => "float",
         "parse_boolean" => "bool",
         "url_decode" => "url",
+        "parse_char" | "compose_char" => "char",
+        "parse_epoch" => "epoch",
         _ => "",
     };
     let mut members = gen_members(u, bias);
@@ -332,6 +440,12 @@ fn build(u: &mut Choices) -> Case {
             lets.push_str(&format!("let s1 = parse_string({})\n", arg));
             ("parse_int(%s1)".to_string(), Exp::Values(vec![V::Int(n)]))
         }
+        "compose_char" => {
+            // parse_string(parse_char(x)) is the one-character string
+            let e = expected("parse_char", &members, None, None);
+            lets.push_str(&format!("let s1 = parse_char({})\n", arg));
+            ("parse_string(%s1)".to_string(), e)
+        }
         "regex_replace" => {
             // anchored pattern that matches the whole string (the documentation's example shape)
             // one to three matching strings among unresolved and non-string members
@@ -364,7 +478,8 @@ fn build(u: &mut Choices) -> Case {
     let mut rules = format!("{}let r = {}\n{}", lets, call, DUMP);
     // a result bound to a variable behaves like any other value in later clauses
     if let Exp::Values(vs) = &exp {
-        if vs.len() == 1 && vs[0].is_scalar() && v_expressible(&vs[0]) && !matches!(vs[0], V::Float(_)) {
+        // (a char result does not compare equal to a string literal: recorded finding F20)
+        if vs.len() == 1 && vs[0].is_scalar() && v_expressible(&vs[0]) && !matches!(vs[0], V::Float(_)) && f != "parse_char" {
             let l = v_text(&vs[0]);
             rules.push_str(&format!("rule same {{\n  %r == {}\n}}\nrule differs {{\n  %r != {}\n}}\nrule member {{\n  %r in [{}, 'zzz-other']\n}}\n", l, l, l));
         }
@@ -492,7 +607,7 @@ fn random_case(u: &mut Choices) -> CaseResult {
             CaseResult::Pass(Info {
                 nontrivial: asserted,
                 key: hash_case(&[&c.doc, &c.rules]),
-                classes: vec![format!("fn:{}", fname), format!("expect:{}", kind)],
+                classes: vec![format!("fn:{}", fname), format!("expect:{}", kind), format!("fn:{}:{}", fname, kind)],
                 evals: 1,
                 sample: Some(json!({"doc": c.doc, "rules": c.rules, "expected": exp_json(&c.exp)})),
             })
@@ -558,7 +673,7 @@ fn doc_example_case(i: usize) -> CaseResult {
 
 pub fn run(tier: Tier, seed: u64) -> i32 {
     let spec = EvidenceSpec {
-        rule: "Random calls of count, to_upper, to_lower, url_decode, substring, join, parse_int, parse_float, parse_string, parse_boolean, json_parse, regex_replace (anchored matching pattern) and parse_int(parse_string(n)) on argument lists of 0-5 members drawn from unicode / numeric / padded / signed / percent-encoded strings, ints, floats, bools, null, lists and unresolved members; argument forms query, variable, literal and nested call; substring offsets from {-1,0..5,11,65535,65536,65538,i64::MAX,1.0} incl. an 80 000-character string. The result set is read from the structured report of `%r !exists` (one failing check per member, in order; SKIP = empty) and compared with an independent implementation in the harness; unparsable converter input must be an evaluation error; a single scalar result is then used in `%r == lit`, `%r != lit`, `%r in [..]` and count(%r). Outcomes the documentation does not determine (malformed percent escapes, non-ASCII substring, exotic float notations, join over unresolved members) are generated but not asserted. Non-trivial: an asserted case; distinct by hash of the texts.".into(),
+        rule: "Random calls of count, to_upper, to_lower, url_decode, substring, join, parse_int, parse_float, parse_string, parse_boolean, json_parse, regex_replace (anchored matching pattern), parse_char (ints 0-9 / one-character strings; longer strings and other ints must be errors), parse_epoch (strict RFC 3339 timestamps incl. fractions, offsets, month ends, leap days, pre-1970 against a days-from-civil implementation; malformed timestamps must be errors) and the composites parse_int(parse_string(n)), parse_string(parse_char(c)) on argument lists of 0-5 members drawn from unicode / numeric / padded / signed / percent-encoded strings, ints, floats, bools, null, lists and unresolved members; argument forms query, variable, literal and nested call; substring offsets from {-1,0..5,11,65535,65536,65538,i64::MAX,1.0} incl. an 80 000-character string. The result set is read from the structured report of `%r !exists` (one failing check per member, in order; SKIP = empty) and compared with an independent implementation in the harness; unparsable converter input must be an evaluation error; a single scalar result is then used in `%r == lit`, `%r != lit`, `%r in [..]` and count(%r). Outcomes the documentation does not determine (malformed percent escapes, non-ASCII substring, exotic float notations, join over unresolved members) are generated but not asserted. Non-trivial: an asserted case; distinct by hash of the texts.".into(),
         assumptions: vec!["Rust's to_uppercase/to_lowercase, str::parse and string slicing are part of the trusted base of the reference implementation".into()],
     };
     execute("C18", tier, seed, spec, &replay, &|run: &Session| {
